@@ -6,14 +6,17 @@ import (
 	"bytes"
 	"encoding/json"
 	"fmt"
+	"go/types"
 	"strings"
 )
 
 type JNode struct {
-	kind   string // "obj" "arr" "str" "num" "bool" "null"
-	keys   []string
-	vals   []*JNode
-	scalar *Term
+	kind     string // "obj" "arr" "str" "num" "bool" "null" | "float" "intstr" "time" "raw"
+	keyTerms []*Term
+	vals     []*JNode
+	scalar   *Term
+	raw      Value
+	typ      types.Type
 }
 
 // flattenConcat returns the parts of a string term: constants and opaque sub-terms.
@@ -87,6 +90,7 @@ func markerTerm(s string, holes []*Term) *Term {
 		r = mkConcat(r, mkStr(s[:i]))
 		r = mkConcat(r, holes[idx])
 		s = s[i+2+j+2:]
+		_ = tag
 	}
 }
 
@@ -112,8 +116,8 @@ func icJSONGet(ex *Exec, fr *frame, fn *ssaFunction, args []Value, pos tokenPos)
 		for _, p := range path {
 			if n.kind == "obj" {
 				found := false
-				for i, k := range n.keys {
-					if k == p {
+				for i, k := range n.keyTerms {
+					if k.op == "c" && k.s == p {
 						n = n.vals[i]
 						found = true
 						break
@@ -135,6 +139,9 @@ func icJSONGet(ex *Exec, fr *frame, fn *ssaFunction, args []Value, pos tokenPos)
 			return TupleV{mkStr(""), tFalse}
 		}
 		switch n.kind {
+		case "intstr":
+			sv := n.vals[0].raw.(StructV)
+			return TupleV{mkIte(mkEq(asTerm(sv.fields[0]), mkInt(0)), mkFromInt(asTerm(sv.fields[1])), asTerm(sv.fields[2])), tTrue}
 		case "str":
 			return TupleV{n.scalar, tTrue}
 		case "num":
@@ -176,7 +183,11 @@ func icJSONGet(ex *Exec, fr *frame, fn *ssaFunction, args []Value, pos tokenPos)
 	}
 	switch x := v.(type) {
 	case string:
-		return TupleV{markerTerm(x, holes), tTrue}
+		mt := markerTerm(x, holes)
+		if orig, ok := ex.jsonEsc[mt]; ok {
+			mt = orig
+		}
+		return TupleV{mt, tTrue}
 	case json.Number:
 		return TupleV{mkStr(x.String()), tTrue}
 	case bool:
@@ -187,4 +198,676 @@ func icJSONGet(ex *Exec, fr *frame, fn *ssaFunction, args []Value, pos tokenPos)
 		return TupleV{mkStr("{...}"), tTrue}
 	}
 	return TupleV{mkStr("[...]"), tTrue}
+}
+
+// ---------------------------------------------------------------------------
+// json.Marshal / json.Unmarshal over the value model
+// ---------------------------------------------------------------------------
+
+// JNode extensions: keyTerms parallel to vals for "obj"; special kinds "intstr", "time", "float".
+type jsonField struct {
+	name      string
+	omitempty bool
+	index     int
+	embedded  bool
+	typ       types.Type
+	asString  bool
+}
+
+func parseTag(tag string) (name string, omitempty, skip, asString bool) {
+	st := reflectStructTag(tag)
+	if st == "-" {
+		return "", false, true, false
+	}
+	parts := strings.Split(st, ",")
+	name = parts[0]
+	for _, p := range parts[1:] {
+		if p == "omitempty" {
+			omitempty = true
+		}
+		if p == "string" {
+			asString = true
+		}
+		if p == "inline" {
+		}
+	}
+	return
+}
+
+func reflectStructTag(tag string) string {
+	// minimal struct tag lookup for key "json"
+	for tag != "" {
+		i := 0
+		for i < len(tag) && tag[i] == ' ' {
+			i++
+		}
+		tag = tag[i:]
+		if tag == "" {
+			break
+		}
+		i = 0
+		for i < len(tag) && tag[i] > ' ' && tag[i] != ':' && tag[i] != '"' {
+			i++
+		}
+		if i == 0 || i+1 >= len(tag) || tag[i] != ':' || tag[i+1] != '"' {
+			break
+		}
+		name := tag[:i]
+		tag = tag[i+1:]
+		i = 1
+		for i < len(tag) && tag[i] != '"' {
+			if tag[i] == '\\' {
+				i++
+			}
+			i++
+		}
+		if i >= len(tag) {
+			break
+		}
+		q := tag[:i+1]
+		tag = tag[i+1:]
+		if name == "json" {
+			return q[1 : len(q)-1]
+		}
+	}
+	return ""
+}
+
+func jsonFields(st *types.Struct) []jsonField {
+	var out []jsonField
+	for i := 0; i < st.NumFields(); i++ {
+		f := st.Field(i)
+		name, omit, skip, asStr := parseTag(st.Tag(i))
+		if skip {
+			continue
+		}
+		if !f.Exported() && !f.Embedded() {
+			continue
+		}
+		if f.Embedded() && name == "" {
+			out = append(out, jsonField{index: i, embedded: true, typ: f.Type()})
+			continue
+		}
+		if name == "" {
+			name = f.Name()
+		}
+		out = append(out, jsonField{name: name, omitempty: omit, index: i, typ: f.Type(), asString: asStr})
+	}
+	return out
+}
+
+func namedPath(t types.Type) string {
+	if n, ok := t.(*types.Named); ok && n.Obj().Pkg() != nil {
+		return n.Obj().Pkg().Path() + "." + n.Obj().Name()
+	}
+	return ""
+}
+
+func (ex *Exec) hasMethod(t types.Type, name string) bool {
+	if ex.prog.MethodSets.MethodSet(t).Lookup(nil, name) != nil {
+		return true
+	}
+	if _, ok := t.(*types.Pointer); !ok {
+		return ex.prog.MethodSets.MethodSet(types.NewPointer(t)).Lookup(nil, name) != nil
+	}
+	return false
+}
+
+func (ex *Exec) jsonEncode(v Value, t types.Type, depth int) *JNode {
+	if depth > 80 {
+		ex.unsupported("json encode depth")
+	}
+	switch namedPath(t) {
+	case "k8s.io/apimachinery/pkg/util/intstr.IntOrString":
+		return &JNode{kind: "intstr", vals: []*JNode{{kind: "raw", raw: v}}}
+	case "k8s.io/apimachinery/pkg/apis/meta/v1.Time", "k8s.io/apimachinery/pkg/apis/meta/v1.MicroTime", "time.Time":
+		return &JNode{kind: "time", vals: []*JNode{{kind: "raw", raw: v}}, typ: t}
+	case "k8s.io/apimachinery/pkg/apis/meta/v1.Duration":
+		return &JNode{kind: "time", vals: []*JNode{{kind: "raw", raw: v}}, typ: t}
+	}
+	if np := namedPath(t); np != "" && ex.hasMethod(t, "MarshalJSON") {
+		ex.unsupported("json.Marshal of type with custom MarshalJSON: " + np)
+	}
+	switch u := t.Underlying().(type) {
+	case *types.Basic:
+		info := u.Info()
+		switch {
+		case info&types.IsString != 0:
+			return &JNode{kind: "str", scalar: asTerm(v)}
+		case info&types.IsBoolean != 0:
+			return &JNode{kind: "bool", scalar: asTerm(v)}
+		case info&types.IsInteger != 0:
+			return &JNode{kind: "num", scalar: asTerm(v)}
+		case info&types.IsFloat != 0:
+			return &JNode{kind: "float", raw: v}
+		}
+	case *types.Pointer:
+		p := v.(PtrV)
+		if p.c == nil {
+			return &JNode{kind: "null"}
+		}
+		return ex.jsonEncode(ex.load(p.c), u.Elem(), depth+1)
+	case *types.Interface:
+		iv := v.(IfaceV)
+		if iv.t == nil {
+			return &JNode{kind: "null"}
+		}
+		return ex.jsonEncode(iv.v, iv.t, depth+1)
+	case *types.Struct:
+		n := &JNode{kind: "obj"}
+		ex.jsonEncodeStruct(n, v.(StructV), u, depth)
+		return n
+	case *types.Slice:
+		s := v.(SliceV)
+		if nilv, _ := isNilValue(s); nilv {
+			return &JNode{kind: "null"}
+		}
+		if s.str != nil {
+			ex.unsupported("json.Marshal of []byte")
+		}
+		if b, ok := u.Elem().Underlying().(*types.Basic); ok && b.Kind() == types.Uint8 && s.len > 0 {
+			ex.unsupported("json.Marshal of []byte")
+		}
+		n := &JNode{kind: "arr"}
+		for i := 0; i < s.len; i++ {
+			n.vals = append(n.vals, ex.jsonEncode(ex.load(s.arr.subs[s.off+i]), u.Elem(), depth+1))
+		}
+		return n
+	case *types.Array:
+		a := v.(ArrayV)
+		n := &JNode{kind: "arr"}
+		for _, e := range a.elems {
+			n.vals = append(n.vals, ex.jsonEncode(e, u.Elem(), depth+1))
+		}
+		return n
+	case *types.Map:
+		m := v.(MapV)
+		if m.m == nil {
+			return &JNode{kind: "null"}
+		}
+		if !isString(u.Key()) {
+			ex.unsupported("json.Marshal of map with non-string keys")
+		}
+		n := &JNode{kind: "obj"}
+		for i, k := range m.m.keys {
+			n.keyTerms = append(n.keyTerms, asTerm(k))
+			n.vals = append(n.vals, ex.jsonEncode(m.m.vals[i], u.Elem(), depth+1))
+		}
+		return n
+	}
+	ex.unsupported("json.Marshal of " + t.String())
+	return nil
+}
+
+func (ex *Exec) jsonEncodeStruct(n *JNode, sv StructV, st *types.Struct, depth int) {
+	for _, f := range jsonFields(st) {
+		fv := sv.fields[f.index]
+		if f.embedded {
+			ft := f.typ
+			if p, ok := ft.Underlying().(*types.Pointer); ok {
+				pv := fv.(PtrV)
+				if pv.c == nil {
+					continue
+				}
+				fv = ex.load(pv.c)
+				ft = p.Elem()
+			}
+			if est, ok := ft.Underlying().(*types.Struct); ok && !ex.hasMethod(ft, "MarshalJSON") {
+				ex.jsonEncodeStruct(n, fv.(StructV), est, depth+1)
+				continue
+			}
+			// embedded non-struct or custom marshaler: encoded under its type name
+			f.name = ft.(*types.Named).Obj().Name()
+		}
+		if f.omitempty {
+			if z, known := ex.isEmptyJSON(fv); known && z {
+				continue
+			}
+		}
+		n.keyTerms = append(n.keyTerms, mkStr(f.name))
+		n.vals = append(n.vals, ex.jsonEncode(fv, f.typ, depth+1))
+	}
+}
+
+// isEmptyJSON: encoding/json's omitempty emptiness, when it is concretely known.
+func (ex *Exec) isEmptyJSON(v Value) (bool, bool) {
+	switch x := v.(type) {
+	case *Term:
+		if x.op != "c" {
+			return false, false
+		}
+		switch x.sort {
+		case SBool:
+			return !x.b, true
+		case SInt:
+			return x.i.Sign() == 0, true
+		default:
+			return x.s == "", true
+		}
+	case FloatV:
+		return x.f == 0, true
+	case PtrV:
+		return x.c == nil, true
+	case IfaceV:
+		return x.t == nil, true
+	case SliceV:
+		if x.str != nil {
+			return false, false
+		}
+		return x.len == 0, true
+	case MapV:
+		return x.m == nil || len(x.m.keys) == 0, true
+	}
+	return false, true
+}
+
+func (ex *Exec) newToken(n *JNode) *Term {
+	t := ex.fresh("json", SStr)
+	ex.solver.Send(fmt.Sprintf("(assert (>= (str.len %s) 2))", smtSym(t.s)))
+	ex.jsonTok[t] = n
+	return t
+}
+
+func icJSONMarshal(ex *Exec, fr *frame, fn *ssaFunction, args []Value, pos tokenPos) Value {
+	iv := args[0].(IfaceV)
+	var n *JNode
+	if iv.t == nil {
+		n = &JNode{kind: "null"}
+	} else {
+		n = ex.jsonEncode(iv.v, iv.t, 0)
+	}
+	return TupleV{SliceV{str: ex.newToken(n)}, IfaceV{}}
+}
+
+// genericToJNode converts a natively parsed JSON document into a node with constant leaves.
+func genericToJNode(v interface{}) *JNode {
+	switch x := v.(type) {
+	case nil:
+		return &JNode{kind: "null"}
+	case bool:
+		return &JNode{kind: "bool", scalar: mkBool(x)}
+	case string:
+		return &JNode{kind: "str", scalar: mkStr(x)}
+	case json.Number:
+		if i, err := x.Int64(); err == nil {
+			return &JNode{kind: "num", scalar: mkInt(i)}
+		}
+		f, _ := x.Float64()
+		return &JNode{kind: "float", raw: FloatV{f}}
+	case []interface{}:
+		n := &JNode{kind: "arr"}
+		for _, e := range x {
+			n.vals = append(n.vals, genericToJNode(e))
+		}
+		return n
+	case map[string]interface{}:
+		n := &JNode{kind: "obj"}
+		keys := make([]string, 0, len(x))
+		for k := range x {
+			keys = append(keys, k)
+		}
+		sortStrings(keys)
+		for _, k := range keys {
+			n.keyTerms = append(n.keyTerms, mkStr(k))
+			n.vals = append(n.vals, genericToJNode(x[k]))
+		}
+		return n
+	}
+	return &JNode{kind: "null"}
+}
+
+func sortStrings(s []string) {
+	for i := 1; i < len(s); i++ {
+		for j := i; j > 0 && s[j] < s[j-1]; j-- {
+			s[j], s[j-1] = s[j-1], s[j]
+		}
+	}
+}
+
+type jsonDecodeError struct{ msg string }
+
+// nodeOfString finds the JSON structure of a string term: registered token, constant text, or a format skeleton.
+func (ex *Exec) nodeOfString(t *Term) (*JNode, bool, string) {
+	if n, ok := ex.jsonTok[t]; ok {
+		return n, true, ""
+	}
+	if t.op == "c" {
+		v, err := parseJSONText(t.s)
+		if err != nil {
+			return nil, true, err.Error()
+		}
+		return genericToJNode(v), true, ""
+	}
+	return nil, false, ""
+}
+
+func icJSONUnmarshal(ex *Exec, fr *frame, fn *ssaFunction, args []Value, pos tokenPos) Value {
+	data := args[0].(SliceV)
+	if data.str == nil {
+		if data.len == 0 {
+			return ex.newError(mkStr("unexpected end of JSON input"))
+		}
+		ex.unsupported("json.Unmarshal of concrete byte slice")
+	}
+	target := args[1].(IfaceV)
+	if target.t == nil {
+		return ex.newError(mkStr("json: Unmarshal(nil)"))
+	}
+	pt, ok := target.t.Underlying().(*types.Pointer)
+	if !ok {
+		return ex.newError(mkStr("json: Unmarshal(non-pointer)"))
+	}
+	p := target.v.(PtrV)
+	if p.c == nil {
+		return ex.newError(mkStr("json: Unmarshal(nil pointer)"))
+	}
+	n, known, perr := ex.nodeOfString(data.str)
+	if !known {
+		ex.unsupported("json.Unmarshal of a symbolic string that is not a registered JSON token: " + trunc(data.str.SMT(), 120))
+	}
+	if perr != "" {
+		return ex.newError(mkStr(perr))
+	}
+	if e := ex.jsonDecodeInto(n, pt.Elem(), p.c, 0); e != nil {
+		return ex.newError(mkStr(e.msg))
+	}
+	return IfaceV{}
+}
+
+func (ex *Exec) jsonDecodeInto(n *JNode, t types.Type, c *Cell, depth int) *jsonDecodeError {
+	if depth > 80 {
+		ex.unsupported("json decode depth")
+	}
+	switch namedPath(t) {
+	case "k8s.io/apimachinery/pkg/util/intstr.IntOrString":
+		switch n.kind {
+		case "intstr":
+			ex.store(c, n.vals[0].raw)
+		case "num":
+			ex.store(c.subs[0], mkInt(0))
+			ex.store(c.subs[1], mkWrap(n.scalar, 32, true))
+			ex.store(c.subs[2], mkStr(""))
+		case "str":
+			ex.store(c.subs[0], mkInt(1))
+			ex.store(c.subs[1], mkInt(0))
+			ex.store(c.subs[2], n.scalar)
+		case "null":
+		default:
+			return &jsonDecodeError{"json: cannot unmarshal " + n.kind + " into IntOrString"}
+		}
+		return nil
+	case "k8s.io/apimachinery/pkg/apis/meta/v1.Time", "k8s.io/apimachinery/pkg/apis/meta/v1.MicroTime", "time.Time", "k8s.io/apimachinery/pkg/apis/meta/v1.Duration":
+		switch n.kind {
+		case "time":
+			if !types.Identical(n.typ, t) {
+				ex.unsupported("json: time value decoded into a different time type")
+			}
+			ex.store(c, n.vals[0].raw)
+		case "null":
+		default:
+			ex.unsupported("json: decoding " + n.kind + " into " + t.String())
+		}
+		return nil
+	}
+	if np := namedPath(t); np != "" && ex.hasMethod(t, "UnmarshalJSON") {
+		ex.unsupported("json.Unmarshal into type with custom UnmarshalJSON: " + np)
+	}
+	if n.kind == "null" {
+		switch t.Underlying().(type) {
+		case *types.Pointer, *types.Slice, *types.Map, *types.Interface:
+			ex.store(c, ex.zero(t))
+		}
+		return nil
+	}
+	switch u := t.Underlying().(type) {
+	case *types.Basic:
+		info := u.Info()
+		switch {
+		case info&types.IsString != 0:
+			if n.kind != "str" {
+				return &jsonDecodeError{"json: cannot unmarshal " + n.kind + " into Go value of type string"}
+			}
+			ex.store(c, n.scalar)
+		case info&types.IsBoolean != 0:
+			if n.kind != "bool" {
+				return &jsonDecodeError{"json: cannot unmarshal " + n.kind + " into Go value of type bool"}
+			}
+			ex.store(c, n.scalar)
+		case info&types.IsInteger != 0:
+			if n.kind != "num" {
+				return &jsonDecodeError{"json: cannot unmarshal " + n.kind + " into Go value of integer type"}
+			}
+			bits, signed, _ := typeBits(t)
+			lo, hi := intRange(bits, signed)
+			if ex.branch(mkOr(mkLt(n.scalar, mkIntBig(lo)), mkGt(n.scalar, mkIntBig(hi)))) {
+				return &jsonDecodeError{"json: number out of range"}
+			}
+			ex.store(c, mkWrap(n.scalar, bits, signed))
+		case info&types.IsFloat != 0:
+			switch n.kind {
+			case "float":
+				ex.store(c, n.raw)
+			case "num":
+				if k, ok := n.scalar.constInt(); ok {
+					ex.store(c, FloatV{float64(k)})
+				} else {
+					ex.unsupported("json: symbolic number into float")
+				}
+			default:
+				return &jsonDecodeError{"json: cannot unmarshal " + n.kind + " into float"}
+			}
+		default:
+			ex.unsupported("json decode into " + t.String())
+		}
+		return nil
+	case *types.Pointer:
+		p := ex.load(c).(PtrV)
+		if p.c == nil {
+			p = PtrV{ex.newCell(u.Elem())}
+			ex.store(c, p)
+		}
+		return ex.jsonDecodeInto(n, u.Elem(), p.c, depth+1)
+	case *types.Struct:
+		if n.kind != "obj" {
+			return &jsonDecodeError{"json: cannot unmarshal " + n.kind + " into Go struct"}
+		}
+		return ex.jsonDecodeStruct(n, u, c, depth)
+	case *types.Slice:
+		if n.kind != "arr" {
+			return &jsonDecodeError{"json: cannot unmarshal " + n.kind + " into Go slice"}
+		}
+		arr := ex.newCell(types.NewArray(u.Elem(), int64(len(n.vals))))
+		for i, e := range n.vals {
+			if err := ex.jsonDecodeInto(e, u.Elem(), arr.subs[i], depth+1); err != nil {
+				return err
+			}
+		}
+		ex.store(c, SliceV{arr: arr, len: len(n.vals), cap: len(n.vals), nonNil: true})
+		return nil
+	case *types.Map:
+		if n.kind != "obj" {
+			return &jsonDecodeError{"json: cannot unmarshal " + n.kind + " into Go map"}
+		}
+		m := ex.load(c).(MapV)
+		if m.m == nil {
+			ex.mapSeq++
+			m = MapV{&MapObj{keyT: u.Key(), valT: u.Elem(), id: ex.mapSeq}}
+			ex.store(c, m)
+		}
+		for i, k := range n.keyTerms {
+			tmp := ex.newCell(u.Elem())
+			if err := ex.jsonDecodeInto(n.vals[i], u.Elem(), tmp, depth+1); err != nil {
+				return err
+			}
+			ex.mapUpdate(m.m, k, ex.load(tmp))
+		}
+		return nil
+	case *types.Interface:
+		if u.NumMethods() != 0 {
+			return &jsonDecodeError{"json: cannot unmarshal into non-empty interface"}
+		}
+		ex.store(c, ex.jsonToGeneric(n, depth))
+		return nil
+	}
+	ex.unsupported("json decode into " + t.String())
+	return nil
+}
+
+var (
+	tyMapStrIface = types.NewMap(types.Typ[types.String], types.NewInterfaceType(nil, nil))
+	tySliceIface  = types.NewSlice(types.NewInterfaceType(nil, nil))
+)
+
+// jsonToGeneric builds the interface{} form (map[string]interface{}, []interface{}, string, float64/int64, bool).
+func (ex *Exec) jsonToGeneric(n *JNode, depth int) Value {
+	switch n.kind {
+	case "null":
+		return IfaceV{}
+	case "str":
+		return IfaceV{t: types.Typ[types.String], v: n.scalar}
+	case "bool":
+		return IfaceV{t: types.Typ[types.Bool], v: n.scalar}
+	case "num":
+		// encoding/json decodes numbers into float64; kept as an integer-valued term tagged float64
+		if k, ok := n.scalar.constInt(); ok {
+			return IfaceV{t: types.Typ[types.Float64], v: FloatV{float64(k)}}
+		}
+		ex.unsupported("json: symbolic number decoded into interface{}")
+	case "float":
+		return IfaceV{t: types.Typ[types.Float64], v: n.raw}
+	case "arr":
+		var es []Value
+		for _, e := range n.vals {
+			es = append(es, ex.jsonToGeneric(e, depth+1))
+		}
+		return IfaceV{t: tySliceIface, v: ex.mkSlice(types.NewInterfaceType(nil, nil), es)}
+	case "obj":
+		ex.mapSeq++
+		m := &MapObj{keyT: types.Typ[types.String], valT: types.NewInterfaceType(nil, nil), id: ex.mapSeq}
+		for i, k := range n.keyTerms {
+			ex.mapUpdate(m, k, ex.jsonToGeneric(n.vals[i], depth+1))
+		}
+		return IfaceV{t: tyMapStrIface, v: MapV{m}}
+	case "intstr":
+		sv := n.vals[0].raw.(StructV)
+		if ex.branch(mkEq(asTerm(sv.fields[0]), mkInt(0))) {
+			return ex.jsonToGeneric(&JNode{kind: "num", scalar: asTerm(sv.fields[1])}, depth)
+		}
+		return IfaceV{t: types.Typ[types.String], v: sv.fields[2]}
+	}
+	ex.unsupported("json: " + n.kind + " decoded into interface{}")
+	return nil
+}
+
+func (ex *Exec) jsonDecodeStruct(n *JNode, st *types.Struct, c *Cell, depth int) *jsonDecodeError {
+	fields := jsonFields(st)
+	for _, f := range fields {
+		if !f.embedded {
+			continue
+		}
+		ft := f.typ
+		fc := c.subs[f.index]
+		if p, ok := ft.Underlying().(*types.Pointer); ok {
+			pv := ex.load(fc).(PtrV)
+			if pv.c == nil {
+				pv = PtrV{ex.newCell(p.Elem())}
+				ex.store(fc, pv)
+			}
+			fc = pv.c
+			ft = p.Elem()
+		}
+		if est, ok := ft.Underlying().(*types.Struct); ok && !ex.hasMethod(ft, "UnmarshalJSON") {
+			if err := ex.jsonDecodeStruct(n, est, fc, depth+1); err != nil {
+				return err
+			}
+		}
+	}
+	for i, kt := range n.keyTerms {
+		if kt.op != "c" {
+			ex.unsupported("json: symbolic object key decoded into a struct")
+		}
+		var hit *jsonField
+		for j := range fields {
+			if !fields[j].embedded && fields[j].name == kt.s {
+				hit = &fields[j]
+				break
+			}
+		}
+		if hit == nil {
+			for j := range fields {
+				if !fields[j].embedded && strings.EqualFold(fields[j].name, kt.s) {
+					hit = &fields[j]
+					break
+				}
+			}
+		}
+		if hit == nil {
+			continue
+		}
+		if err := ex.jsonDecodeInto(n.vals[i], hit.typ, c.subs[hit.index], depth+1); err != nil {
+			return err
+		}
+	}
+	return nil
+}
+
+// jnodeEq: structural equality of two JSON nodes as a Bool term.
+func (ex *Exec) jnodeEq(a, b *JNode) *Term {
+	if a.kind != b.kind {
+		return tFalse
+	}
+	switch a.kind {
+	case "null":
+		return tTrue
+	case "str", "num", "bool":
+		return mkEq(a.scalar, b.scalar)
+	case "float":
+		return ex.valEq(a.raw, b.raw)
+	case "intstr", "time":
+		return ex.valEq(a.vals[0].raw, b.vals[0].raw)
+	case "arr":
+		if len(a.vals) != len(b.vals) {
+			return tFalse
+		}
+		r := tTrue
+		for i := range a.vals {
+			r = mkAnd(r, ex.jnodeEq(a.vals[i], b.vals[i]))
+		}
+		return r
+	case "obj":
+		if len(a.vals) != len(b.vals) {
+			return tFalse
+		}
+		r := tTrue
+		for i := range a.vals {
+			var any *Term = tFalse
+			for j := range b.vals {
+				ke := mkEq(a.keyTerms[i], b.keyTerms[j])
+				if ke == tFalse {
+					continue
+				}
+				any = mkOr(any, mkAnd(ke, ex.jnodeEq(a.vals[i], b.vals[j])))
+			}
+			r = mkAnd(r, any)
+		}
+		return r
+	}
+	return tFalse
+}
+
+// jsonReplaceNullHolder implements strings.Replace(tok, "\"NULL_HOLDER\"", "null", -1) on a token.
+func jsonMapNodes(n *JNode, f func(*JNode) *JNode) *JNode {
+	m := f(n)
+	if m != n {
+		return m
+	}
+	if len(n.vals) == 0 || n.kind == "intstr" || n.kind == "time" {
+		return n
+	}
+	c := *n
+	c.vals = make([]*JNode, len(n.vals))
+	for i, v := range n.vals {
+		c.vals[i] = jsonMapNodes(v, f)
+	}
+	return &c
 }
